@@ -116,6 +116,11 @@ pub enum Op {
     /// the deque must be unchanged for whoever catches the panic and carries on
     BadPushEqual,
     BadPushBelow,
+    /// remove the key with this rank counted from the END of the keys pushed since the last clear
+    /// (long histories: removals near the back and in the middle of a large deque)
+    RemoveBack(u8),
+    /// remove the key in the middle of the keys pushed since the last clear
+    RemoveMid,
 }
 
 pub const MAX_RANK: u8 = 7;
@@ -125,6 +130,13 @@ pub fn all_ops_ext() -> Vec<Op> {
     let mut v = all_ops();
     v.push(Op::BadPushEqual);
     v.push(Op::BadPushBelow);
+    v
+}
+
+/// Alphabet of the periodic unrollings: positions relative to both ends and the middle.
+pub fn all_ops_cyc() -> Vec<Op> {
+    let mut v = all_ops_ext();
+    v.extend([Op::RemoveBack(0), Op::RemoveBack(1), Op::RemoveBack(2), Op::RemoveBack(5), Op::RemoveMid]);
     v
 }
 
@@ -157,10 +169,12 @@ impl Op {
             Op::RemoveAbove => "remove_above".into(),
             Op::BadPushEqual => "rejected_push(equal)".into(),
             Op::BadPushBelow => "rejected_push(below)".into(),
+            Op::RemoveBack(r) => format!("remove_back#{}", r),
+            Op::RemoveMid => "remove_mid".into(),
         }
     }
     pub fn parse(s: &str) -> Option<Op> {
-        all_ops_ext().into_iter().find(|o| o.name() == s)
+        all_ops_cyc().into_iter().find(|o| o.name() == s)
     }
 }
 
@@ -298,6 +312,16 @@ where
             Op::RemoveBetween => {
                 if let Some((k, v)) = self.keys.get(self.keys.len() / 2).copied() {
                     self.remove_key(k - 1, v)?;
+                }
+            }
+            Op::RemoveBack(r) => {
+                if let Some((k, v)) = self.keys.len().checked_sub(1 + r as usize).and_then(|i| self.keys.get(i)).copied() {
+                    self.remove_key(k, v)?;
+                }
+            }
+            Op::RemoveMid => {
+                if let Some((k, v)) = self.keys.get(self.keys.len() / 2).copied() {
+                    self.remove_key(k, v)?;
                 }
             }
             Op::RemoveAbove => {
@@ -710,6 +734,86 @@ where
     }
 }
 
+/// Two deques of the same type alive at once and used alternately (a[0], b[0], a[1], ...), each
+/// against its own model; the idle one is re-observed after every step of the other.
+pub fn run_twin<T: Conv, C: Cont<T>>(pa: &[Op], pb: &[Op]) -> Result<(), String>
+where
+    (): SortedDequeMarker<T, Key = T::K>,
+{
+    let mut a: St<T, C> = St::new();
+    let mut b: St<T, C> = St::new();
+    let obs = |s: &St<T, C>| match catch(|| s.observe()) {
+        Ok(r) => r,
+        Err(p) => Err(format!("panic: {}", p)),
+    };
+    for i in 0..pa.len().max(pb.len()) {
+        if let Some(op) = pa.get(i) {
+            a.apply(*op, false).map_err(|e| format!("deque A step {} ({}): {}", i + 1, op.name(), e))?;
+            obs(&b).map_err(|e| format!("deque B after A's step {} ({}): {}", i + 1, op.name(), e))?;
+        }
+        if let Some(op) = pb.get(i) {
+            b.apply(*op, false).map_err(|e| format!("deque B step {} ({}): {}", i + 1, op.name(), e))?;
+            obs(&a).map_err(|e| format!("deque A after B's step {} ({}): {}", i + 1, op.name(), e))?;
+        }
+    }
+    Ok(())
+}
+
+/// Periodic unrollings: every cycle of 1..=max_len ops over the extended alphabet repeated `reps`
+/// times on one object (after `prefix`), or on two objects used alternately.
+pub fn cycles<T: Conv, C: Cont<T>>(ctx: &Ctx, rep: &mut Report, prefix: &[Op], max_len: usize, reps: usize, unit_base: &mut usize, twin: bool)
+where
+    (): SortedDequeMarker<T, Key = T::K>,
+{
+    let ops = all_ops_cyc();
+    let n = ops.len();
+    let mut count = 0u64;
+    for len in 1..=max_len {
+        for c in 0..n.pow(len as u32) {
+            if !ctx.owns(*unit_base + c % 4096) {
+                continue;
+            }
+            let mut x = c;
+            let mut cycle: Vec<Op> = Vec::with_capacity(len);
+            for _ in 0..len {
+                cycle.push(ops[x % n]);
+                x /= n;
+            }
+            if (1..len).any(|d| len % d == 0 && (0..len).all(|i| cycle[i] == cycle[i % d])) {
+                continue;
+            }
+            let mut path: Vec<Op> = prefix.to_vec();
+            path.extend((0..len * reps).map(|i| cycle[i % len]));
+            count += 1;
+            rep.evaluations += 1;
+            rep.transitions += path.len() as u64 * if twin { 2 } else { 1 };
+            if !twin {
+                if let Err(e) = run_history::<T, C>(&path, Mode::Straight) {
+                    let at = e.strip_prefix("step ").and_then(|r| r.split(' ').next()).and_then(|k| k.parse::<usize>().ok()).unwrap_or(path.len());
+                    let cut = &path[..at.min(path.len())];
+                    let e2 = run_history::<T, C>(cut, Mode::Straight).err().unwrap_or(e);
+                    violation::<T, C>(rep, cut, &e2, Mode::Straight);
+                }
+            } else {
+                let mut pb: Vec<Op> = prefix.to_vec();
+                pb.extend((0..len * reps).map(|i| cycle[(i + 1) % len]));
+                if let Err(e) = run_twin::<T, C>(&path, &pb) {
+                    if run_twin::<T, C>(&path, &pb).err().as_ref() != Some(&e) {
+                        machinery_failure(&format!("twin violation did not reproduce identically: {}", e));
+                    }
+                    rep.violation(Violation {
+                        key: format!("C16:twin:{}:{}:{}", T::NAME, <C as Cont<T>>::NAME, render(&cycle).replace(' ', "")),
+                        summary: format!("two SortedDeque<{}, {}> used alternately, cycle [{}] x {} (B one op ahead): {}", <C as Cont<T>>::NAME, T::NAME, render(&cycle), reps, e),
+                        replay_text: format!("check: sorted-twin\nconvention: {}\nbacking: {}\nhistory-a: {}\nhistory-b: {}\nobserved: {}\n", T::NAME, <C as Cont<T>>::NAME, render(&path), render(&pb), e),
+                    });
+                }
+            }
+        }
+        *unit_base += 4096;
+    }
+    rep.count(if twin { "twin_cycles_unrolled" } else { "cycles_unrolled" }, count);
+}
+
 pub fn run(ctx: &Ctx) -> Report {
     let mut rep = Report::new();
     let cap = 7;
@@ -739,6 +843,14 @@ pub fn run(ctx: &Ctx) -> Report {
     dfs::<Whole, Vec<Whole>>(ctx, &mut rep, None, cap, depth - 2, &mut unit, &[], true);
     dfs_straight::<Pair, SmallVec<[Pair; 4]>>(ctx, &mut rep, depth - 2, &mut unit);
     dfs_straight::<Whole, Vec<Whole>>(ctx, &mut rep, depth - 2, &mut unit);
+    let (cl_len, cl_reps) = (ctx.tier.pick(3, 4), ctx.tier.pick(30, 60));
+    cycles::<Pair, SpyVec<Pair>>(ctx, &mut rep, &[], cl_len, cl_reps, &mut unit, false);
+    cycles::<Pair, SmallVec<[Pair; 4]>>(ctx, &mut rep, &[], cl_len, cl_reps, &mut unit, false);
+    cycles::<Whole, Vec<Whole>>(ctx, &mut rep, &[], cl_len, cl_reps, &mut unit, false);
+    cycles::<Pair, SmallVec<[Pair; 4]>>(ctx, &mut rep, &[Op::Push; 9], cl_len - 1, cl_reps, &mut unit, false);
+    cycles::<Pair, SpyVec<Pair>>(ctx, &mut rep, &[], cl_len - 1, cl_reps, &mut unit, true);
+    cycles::<Whole, Vec<Whole>>(ctx, &mut rep, &[], cl_len - 1, cl_reps, &mut unit, true);
+    rep.note(format!("C16: periodic unrollings: every cycle of 1..={} ops over {} ops (the alphabet plus rejected pushes, removals by rank from the back and from the middle) repeated {} times on one object (pair/SpyVec, pair/SmallVec4, whole/Vec; pair/SmallVec4 after nine pushes one op shorter); the same one op shorter with TWO deques alive and used alternately, each against its own map", cl_len, all_ops_cyc().len(), cl_reps));
     rep.note(format!("C16: {} non-initial start histories (tombstones then clear, two interior tombstones, emptied by pops, ...) each followed by all op sequences to depth {} (pair/SpyVec) / {} (whole/Vec); the cloning explorers copy the deque before every op (exactly-fitting capacity), the straight explorer re-executes all histories to depth {} on one object", prefixes().len(), depth - 1, depth - 2, depth - 2));
     rep.note(format!(
         "C16: closure over (physical length, consumed prefix, tombstone flags) with <= {} physical items reached a fix-point for both item conventions; DFS of all op sequences ({} ops incl. remove-by-rank) completed to depth {} (pair/SpyVec, whole/SpyVec, pair/SmallVec4) and {} (whole/Vec); debug_assertions={}",
@@ -754,6 +866,19 @@ pub fn run(ctx: &Ctx) -> Report {
 pub fn replay(text: &str) -> Result<String, String> {
     let conv = field(text, "convention").unwrap_or("pair");
     let backing = field(text, "backing").unwrap_or("SpyVec");
+    if field(text, "check") == Some("sorted-twin") {
+        let (Some(pa), Some(pb)) = (field(text, "history-a").and_then(parse_history), field(text, "history-b").and_then(parse_history)) else {
+            machinery_failure("cannot parse twin histories");
+        };
+        let r = match (conv, backing) {
+            ("whole", _) => run_twin::<Whole, Vec<Whole>>(&pa, &pb),
+            _ => run_twin::<Pair, SpyVec<Pair>>(&pa, &pb),
+        };
+        return match r {
+            Err(e) => Ok(format!("two deques used alternately: {}", e)),
+            Ok(()) => Err("two deques used alternately: both agree with their reference maps".to_string()),
+        };
+    }
     let Some(hist) = field(text, "history") else {
         machinery_failure("no history in artefact");
     };
